@@ -538,6 +538,19 @@ func flagNameOf(v ssa.Value) string {
 		}
 		return name
 	}
+	/* The pointer flag.T() returned: nothing but the flag package writes
+	through it, and it is not put anywhere from where somebody could (a
+	table of pointers walked by a "normalise all paths" loop). */
+	for _, ref := range *c.Referrers() {
+		if st, isSt := ref.(*ssa.Store); isSt {
+			if st.Addr == ssa.Value(c) {
+				return "" /* written through */
+			}
+			if _, isCell := resolveFree(st.Addr).(*ssa.Alloc); !isCell {
+				return "" /* put into a table or a field */
+			}
+		}
+	}
 	s, _ := constString(c.Common().Args[0])
 	return s
 }
